@@ -48,6 +48,18 @@ theorem select_cost_le (g : BuildGraph) (s : Selector) (h : Host) (order sel : L
     simpa using this
   omega
 
+/-- `grog changes --dependents=transitive`: one `GetDescendants` per changed target, hence at most
+    `|changed| · (|V| + |E|)` steps. -/
+theorem changes_cost_le (n : Nat) (es : List Edge) (hwf : WF n es) :
+    ∀ (owners : List Nat), (∀ o ∈ owners, o < n) →
+      ((owners.map (fun o => (descendantsV es o).cost)).sum ≤ owners.length * (n + es.length))
+  | [], _ => by simp
+  | o :: rest, h => by
+    have h1 := visited_cost_le n es o hwf (h o (List.mem_cons_self ..))
+    have h2 := changes_cost_le n es hwf rest (fun x hx => h x (List.mem_cons_of_mem _ hx))
+    simp only [List.map_cons, List.sum_cons, List.length_cons]
+    rw [Nat.succ_mul]; omega
+
 /-- On an acyclic graph (`Ranked`: some numbering increases along every edge and is bounded by `N`) the
     visited-set `GetDescendants` returns exactly the nodes the path-enumerating one of the old tree
     returned (as a set; the old one repeated a node once per path). -/
